@@ -227,7 +227,10 @@ def write_evidence(prop_id, ev):
 
 
 def load_prop(prop_id):
-    return importlib.import_module("harness.props.%s" % prop_id.lower())
+    mod = importlib.import_module("harness.props.%s" % prop_id.lower())
+    if hasattr(mod, "PARTS"):
+        return Parts([importlib.import_module(n) if isinstance(n, str) else n for n in mod.PARTS])
+    return mod
 
 
 def _safe_impl(mod, case):
@@ -238,6 +241,56 @@ def _safe_impl(mod, case):
     except Exception as e:  # the implementation (or the harness around it) blew up: an observation
         return {"harness_exception": "%s: %s" % (type(e).__name__, e),
                 "tb": traceback.format_exc()[-1500:]}
+
+
+class Parts(object):
+    """A property decided by several model layers: every case is tagged with its part and
+    routed to that part's functions; theorem files are the union."""
+
+    def __init__(self, parts):
+        self.parts = parts
+        self.LEAN_PROPS = sum((list(p.LEAN_PROPS) for p in parts), [])
+        self.LEAN_LEMMAS = sum((list(getattr(p, "LEAN_LEMMAS", [])) for p in parts), [])
+        self.RULE = " || ".join("%s: %s" % (p.__name__.split(".")[-1], getattr(p, "RULE", "")) for p in parts)
+        self.ASSUMPTIONS = sum((list(getattr(p, "ASSUMPTIONS", [])) for p in parts), [])
+        self.TRUSTED_EXTRA = sum((list(getattr(p, "TRUSTED_EXTRA", [])) for p in parts), [])
+
+    def _p(self, case):
+        return self.parts[case["_part"]]
+
+    def corpus(self):
+        return [dict(c, _part=i) for i, p in enumerate(self.parts) for c in (p.corpus() if hasattr(p, "corpus") else [])]
+
+    def generate(self, rng, tier):
+        return [dict(c, _part=i) for i, p in enumerate(self.parts) for c in p.generate(rng, tier)]
+
+    def impl_run(self, case):
+        return self._p(case).impl_run(case)
+
+    def impl_view(self, case, obs):
+        p = self._p(case)
+        return p.impl_view(case, obs) if hasattr(p, "impl_view") else obs
+
+    def model_line(self, case):
+        return self._p(case).model_line(case)
+
+    def model_parse(self, case, line):
+        return self._p(case).model_parse(case, line)
+
+    def oracle(self, case, obs):
+        return self._p(case).oracle(case, obs)
+
+    def nontrivial(self, case, obs):
+        return self._p(case).nontrivial(case, obs)
+
+    def stats(self, cases, impl):
+        out = {}
+        for i, p in enumerate(self.parts):
+            if hasattr(p, "stats"):
+                sel = [(c, o) for c, o in zip(cases, impl) if c["_part"] == i]
+                out[p.__name__.split(".")[-1]] = p.stats([c for c, _ in sel], [o for _, o in sel])
+                out[p.__name__.split(".")[-1]]["cases"] = len(sel)
+        return out
 
 
 def evaluate(mod, cases):
